@@ -6,7 +6,7 @@ from __future__ import annotations
 import ast
 from typing import Any, Dict, Optional, Sequence
 
-from .constfold import BoolList, Folder, PySeq, Unfoldable, truth
+from .constfold import BoolList, Folder, PySeq, PyTuple, Unfoldable, truth
 
 
 class FragRaise(Exception):
@@ -262,7 +262,7 @@ def run_fragment(body: Sequence[ast.stmt], names: Dict[str, Any], attrs: Optiona
             return
         if not isinstance(t.slice, (ast.Tuple, ast.Slice)):
             mask_ = fold(t.slice)
-            if isinstance(mask_, PySeq) and not isinstance(t.slice, (ast.List, ast.ListComp)) and mask_ and all(isinstance(q_, int) and not isinstance(q_, bool) for q_ in mask_):
+            if isinstance(mask_, PyTuple) and mask_ and all(isinstance(q_, int) and not isinstance(q_, bool) for q_ in mask_):
                 # base[pos] = v with pos a python tuple of integers held in a variable: one index per axis
                 cur_ = base
                 for q_ in list(mask_)[:-1]:
@@ -351,17 +351,68 @@ def run_fragment(body: Sequence[ast.stmt], names: Dict[str, Any], attrs: Optiona
                 parts[ax] = _Sl(list(range(length))[slice(pr[1], pr[2], pr[3])])
         try:
             if len(parts) == 1:
-                if parts[0] == "all":
-                    base = v if isinstance(v, list) else [v for _ in base]
-                elif isinstance(parts[0], list):
-                    if isinstance(v, list) and len(v) == len(parts[0]):
-                        for k_, row_ in enumerate(parts[0]):
-                            base[row_] = copy.deepcopy(v[k_])
+                from .constfold import _regular as _reg1, _shape as _shp1
+
+                def _bcast(val, tshape):
+                    """val broadcast (right-aligned, as torch does for a store) to the nested-list shape tshape"""
+                    vs = _shp1(val) if isinstance(val, list) else []
+                    if isinstance(val, list):
+                        _reg1(val)
+                    if len(vs) > len(tshape) or any(a_ != b_ and a_ != 1 for a_, b_ in zip(vs[::-1], tshape[::-1])):
+                        raise Unfoldable("store shape mismatch")
+
+                    def build(level, sub):
+                        if level == len(tshape):
+                            return sub
+                        k_ = level - (len(tshape) - len(vs))
+                        out_ = []
+                        for i_ in range(tshape[level]):
+                            if k_ < 0:
+                                out_.append(build(level + 1, sub))
+                            else:
+                                out_.append(build(level + 1, sub[0] if len(sub) == 1 and tshape[level] != 1 else sub[i_]))
+                        return out_
+
+                    return build(0, copy.deepcopy(val))
+
+                if isinstance(base, PySeq):
+                    # a python list: plain element replacement, nothing is broadcast
+                    if parts[0] == "all":
+                        base = type(base)(v) if isinstance(v, list) else [v for _ in base]
+                    elif isinstance(parts[0], list):
+                        if isinstance(parts[0], _Sl):
+                            if not isinstance(v, list):
+                                raise Unfoldable("slice store of a non-sequence into a python list")
+                            lo_ = parts[0][0] if parts[0] else len(base)
+                            new_ = list(base[:lo_]) + list(v) + list(base[(parts[0][-1] + 1) if parts[0] else lo_:])
+                            base = type(base)(new_)
+                        else:
+                            raise Unfoldable("python list indexed by a list")
                     else:
-                        for row_ in parts[0]:
-                            base[row_] = copy.deepcopy(v)
+                        base[parts[0]] = v
+                    if in_attrs:
+                        attrs[_chain(t.value)] = base
+                    else:
+                        env[t.value.id] = base
+                    return
+                rest_ = _shp1(base[0]) if base and isinstance(base[0], list) else []
+                if base and isinstance(base[0], list):
+                    _reg1(base)
+                if not rest_ and isinstance(v, list) and not isinstance(parts[0], list) and parts[0] != "all":
+                    flat1_ = v
+                    while isinstance(flat1_, list) and len(flat1_) == 1:
+                        flat1_ = flat1_[0]
+                    if isinstance(flat1_, list):
+                        raise Unfoldable("store of a sequence into a scalar position")
+                    v = flat1_
+                if parts[0] == "all":
+                    base = _bcast(v, [len(base)] + rest_)
+                elif isinstance(parts[0], list):
+                    new_ = _bcast(v, [len(parts[0])] + rest_)
+                    for k_, row_ in enumerate(parts[0]):
+                        base[row_] = new_[k_]
                 else:
-                    base[parts[0]] = v
+                    base[parts[0]] = _bcast(v, rest_) if rest_ else (v if not isinstance(v, list) else _bcast(v, []))
             elif len(parts) == 2:
                 r, c = parts
                 if isinstance(c, list) and (r == "all" or isinstance(r, list)):
